@@ -272,4 +272,283 @@ theorem convPlanarT_spec {native : Color} {target : Unc.Channels} {ssx p1 p2 : N
       rw [hO] at this
       exact this
 
+/-! ### the two bi-planar loops -/
+
+/-- how a decoder of `bi_planar.rs` instantiates the loops: `BiPlaneInfo` with `u8` fields in the ranges of `Fam.WF` -/
+structure PlanarCfg (img : Img) (native : Color) (p1 p2 ssx ssy : Nat) : Prop where
+  prec : img.color.psz = native.psz
+  p1_pos : 0 < p1
+  p1_lt : p1 < 16
+  p2_pos : 0 < p2
+  p2_lt : p2 < 16
+  ssx_pos : 0 < ssx
+  ssx_lt : ssx < 16
+  ssy_pos : 0 < ssy
+  ssy_lt : ssy < 16
+
+theorem PlanarCfg.native_psz {img : Img} {native : Color} {p1 p2 ssx ssy : Nat} (c : PlanarCfg img native p1 p2 ssx ssy)
+    (ok : img.Ok) : native.psz = 1 ∨ native.psz = 2 ∨ native.psz = 4 := c.prec ▸ ok.psz
+
+theorem PlanarCfg.color_eq {img : Img} {native : Color} {p1 p2 ssx ssy : Nat} (c : PlanarCfg img native p1 p2 ssx ssy) :
+    (Color.mk img.color.ch native.psz) = img.color := by rw [← c.prec]
+
+/-- one output row through `process_bi_planar`: the writes stay inside row `row` of the view -/
+theorem convPlanar_row {img : Img} {native : Color} {p1 p2 ssx ssy : Nat} (ok : img.Ok)
+    (c : PlanarCfg img native p1 p2 ssx ssy) {line1 uv : Sl} {offset row : Nat} (hrow : row < img.h)
+    (ho : offset < ssx) (hws : offset + img.w < U32B) (l1 : line1.len = img.w * p1)
+    (l2 : uv.len = divCeil (offset + img.w) ssx * p2) :
+    ∃ e, convPlanarT native img.color.ch ssx p1 p2 line1 uv ⟨.out, row * img.pitch, img.w * img.color.bpp⟩ offset img.w =
+        some e ∧ Quiet (InRows 0 img.pitch img.h (img.w * img.color.bpp)) e := by
+  have pre : PlPre ssx p1 p2 (Color.mk img.color.ch native.psz).bpp line1 uv
+      ⟨.out, row * img.pitch, img.w * img.color.bpp⟩ offset img.w :=
+    { ssx_pos := c.ssx_pos, p1_pos := c.p1_pos, p2_pos := c.p2_pos,
+      size_pos := by have := Color.bpp_bounds ⟨img.color.ch, native.psz⟩ (c.native_psz ok); omega,
+      off_lt := ho, w_pos := ok.w_pos, wsum_lt := hws, l1 := l1, l2 := l2, ld := by rw [c.color_eq] }
+  obtain ⟨e, he, q⟩ := convPlanarT_spec (c.native_psz ok) c.ssx_lt c.p1_lt c.p2_lt pre
+  exact ⟨e, he, q.mono fun s hs => InRows.of_WrOK hs hrow (by simp) (Nat.le_refl _)⟩
+
+theorem planarFullInnerT_spec {img : Img} {native : Color} {p1 p2 ssx ssy : Nat} (ok : img.Ok)
+    (c : PlanarCfg img native p1 p2 ssx ssy) (hsurf : img.w * p1 * img.h ≤ I64MAX) {uvLine : Sl}
+    (l2 : uvLine.len = divCeil img.w ssx * p2) :
+    ∀ (l : List Nat) (y : Nat), y ≤ img.h →
+      ∃ e, planarFullInnerT img native ssx p1 p2 (img.w * p1) ⟨.plane1, 0, img.w * p1 * img.h⟩ uvLine l y =
+          some (min img.h (y + l.length), e) ∧ Quiet (InRows 0 img.pitch img.h (img.w * img.color.bpp)) e := by
+  have hUS : I64MAX < USIZE := by decide
+  intro l
+  induction l with
+  | nil => intro y hy; exact ⟨[], by simp [planarFullInnerT]; omega, Quiet.nil _⟩
+  | cons a rest ih =>
+    intro y hy
+    unfold planarFullInnerT
+    by_cases hge : y ≥ img.h
+    · rw [if_pos hge]
+      have : min img.h (y + (a :: rest).length) = y := by simp only [List.length_cons]; omega
+      rw [this]; exact ⟨[], rfl, Quiet.nil _⟩
+    · rw [if_neg hge]
+      have hy' : y < img.h := by omega
+      have m1 : (y + 1) * (img.w * p1) ≤ img.h * (img.w * p1) := Nat.mul_le_mul_right _ (by omega)
+      rw [Nat.succ_mul] at m1
+      rw [Nat.mul_comm img.h] at m1
+      have hhl := ok.h_lt
+      have h32 : U32B < USIZE := by decide
+      obtain ⟨e, he, q⟩ := convPlanar_row ok c (line1 := ⟨.plane1, 0 + y * (img.w * p1), y * (img.w * p1) + img.w * p1 - y * (img.w * p1)⟩)
+        (uv := uvLine) (offset := 0) hy' c.ssx_pos (by have := ok.w_lt; omega) (by simp only; omega)
+        (by rw [Nat.zero_add]; exact l2)
+      obtain ⟨e', he', q'⟩ := ih (y + 1) (by omega)
+      rw [ckU_of_lt (by omega), bind_some', ckU_of_lt (by omega), bind_some', Nat.succ_mul, ckU_of_lt (by omega),
+        bind_some', Sl.range_of ⟨by omega, by simp only; omega⟩, bind_some', ok.getRowT hy', bind_some', he, bind_some',
+        bind_some', he', bind_some']
+      simp only [pure_some']
+      refine ⟨_, ?_, q.append q'⟩
+      simp only [List.length_cons]
+      congr 2; omega
+
+/-- the part of the surface bound `check_likely_overflow` gives that the bi-planar loops need -/
+structure PlanarSurf (p1 p2 ssx ssy W H : Nat) : Prop where
+  plane1 : W * p1 * H ≤ I64MAX
+  plane2 : divCeil W ssx * p2 * divCeil H ssy ≤ I64MAX
+
+/-- **`for_each_bi_planar`**: no trap; trace = C06's `biPlanarFull`; every write inside a row of the view -/
+theorem planarFullT_spec {img : Img} {native : Color} {p1 p2 ssx ssy : Nat} (ok : img.Ok)
+    (c : PlanarCfg img native p1 p2 ssx ssy) (hs : PlanarSurf p1 p2 ssx ssy img.w img.h) :
+    ∃ evs, planarFullT img native p1 p2 ssx ssy = some evs ∧
+      ios evs = Stream.biPlanarFull p1 p2 ssx ssy img.w img.h ∧
+      Wr (InRows 0 img.pitch img.h (img.w * img.color.bpp)) evs := by
+  have hsx := c.ssx_pos
+  have hsy := c.ssy_pos
+  have hUS : I64MAX < USIZE := by decide
+  have hwb : 0 < divCeil img.w ssx := Stream.divCeil_pos ok.w_pos hsx
+  have hhb : 0 < divCeil img.h ssy := Stream.divCeil_pos ok.h_pos hsy
+  have hbp : 0 < divCeil img.w ssx * p2 := Nat.mul_pos hwb c.p2_pos
+  have hbl : divCeil img.w ssx * p2 < USIZE := by
+    have : divCeil img.w ssx * p2 * 1 ≤ divCeil img.w ssx * p2 * divCeil img.h ssy := Nat.mul_le_mul_left _ hhb
+    have := hs.plane2; omega
+  have hp1l : img.w * p1 ≤ img.w * p1 * img.h := Nat.le_mul_of_pos_right _ ok.h_pos
+  have hs1 := hs.plane1
+  have hmod : ssy % 256 = ssy := Nat.mod_eq_of_lt (by have := c.ssy_lt; omega)
+  obtain ⟨lb, hnew, hbpl, inv⟩ := LB.newT_spec hbp hbl hhb
+  obtain ⟨e1, he1, i1, w1⟩ := whileLines_spec
+    (fun y uvLine => do
+      dbgP (y < img.h)
+      planarFullInnerT img native ssx p1 p2 (img.w * p1) ⟨.plane1, 0, img.w * p1 * img.h⟩ uvLine (List.range (ssy % 256)) y)
+    (Stream.linesInBuffer (divCeil img.w ssx * p2) (divCeil img.h ssy)) (divCeil img.w ssx * p2) (divCeil img.h ssy)
+    (fun k y => y = min img.h (k * ssy)) (InRows 0 img.pitch img.h (img.w * img.color.bpp))
+    (by
+      intro k y line hk hy _ hl
+      subst y
+      have hkm : k * ssy < img.h := divCeil_lt_mul hsy hk
+      obtain ⟨e, he, q⟩ := planarFullInnerT_spec ok c hs1 hl (List.range ssy) (min img.h (k * ssy)) (Nat.min_le_left _ _)
+      refine ⟨min img.h (min img.h (k * ssy) + (List.range ssy).length), e, ?_, ?_, q⟩
+      · show (do
+          dbgP (min img.h (k * ssy) < img.h)
+          planarFullInnerT img native ssx p1 p2 (img.w * p1) ⟨.plane1, 0, img.w * p1 * img.h⟩ line
+            (List.range (ssy % 256)) (min img.h (k * ssy))) = _
+        rw [dbgP_of (by omega), bind_some', hmod, he]
+      · rw [List.length_range, Nat.succ_mul]; omega)
+    (divCeil img.h ssy + 1) lb 0 (divCeil img.h ssy) 0 0 inv hbpl (by omega) (by omega) (by simp)
+  unfold planarFullT
+  rw [dbgP_of c.prec, bind_some', divCeilT_of_ne (by omega), bind_some', divCeilT_of_ne (by omega), bind_some',
+    ckU_of_lt hbl, bind_some', hnew, bind_some']
+  simp only []
+  rw [ckU_of_lt (by omega), bind_some', ckU_of_lt (by omega), bind_some']
+  rw [he1, bind_some', pure_some']
+  refine ⟨_, rfl, ?_, (((Wr.io _ _).append ((Wr.io _ _).append (Wr.io _ _)))).append w1⟩
+  simp only [i1, ios, refillsFrom_stream hbp, Stream.biPlanarFull, Stream.lineBufNew_eq hbp hhb,
+    List.cons_append, List.nil_append]
+
+theorem planarRectInnerT_spec {img : Img} {native : Color} {p1 p2 ssx ssy : Nat} (ok : img.Ok)
+    (c : PlanarCfg img native p1 p2 ssx ssy) {W ox oy : Nat} (hx : ox + img.w ≤ W) (hW : W < U32B)
+    (hoy : oy + img.h < U32B) (hsurf : W * p1 * img.h ≤ I64MAX) {uvLine : Sl} (l2 : uvLine.len = divCeil W ssx * p2) :
+    ∀ (l : List Nat) (y : Nat), y ≤ oy + img.h →
+      ∃ e, planarRectInnerT img ox oy native ssx p1 p2 (W * p1) ⟨.plane1, 0, W * p1 * img.h⟩ uvLine l y =
+          some (min (oy + img.h) (y + l.length), e) ∧ Quiet (InRows 0 img.pitch img.h (img.w * img.color.bpp)) e := by
+  have hUS : I64MAX < USIZE := by decide
+  have h32 : U32B < USIZE := by decide
+  have hUSn : 1099511627776 < USIZE := by decide
+  have hsx := c.ssx_pos
+  let g : Addr.RectGeom := ⟨ssx, 1, ox, 0, img.w, 1⟩
+  obtain ⟨b1, b2, b3, b4, b5, b6⟩ := C05.block_range_covers g hsx ok.w_pos
+  have b5' : ox / ssx < divCeil (ox + img.w) ssx := b5
+  have b6' : divCeil (ox + img.w) ssx - ox / ssx = divCeil (ox % ssx + img.w) ssx := b6
+  have hbre : divCeil (ox + img.w) ssx ≤ divCeil W ssx := Stream.divCeil_mono hsx hx
+  have hdW : divCeil W ssx ≤ W := divCeil_le_self hsx
+  have hp2l := c.p2_lt
+  have hp1l := c.p1_lt
+  have u1 : ox / ssx * p2 ≤ divCeil (ox + img.w) ssx * p2 := Nat.mul_le_mul_right _ (by omega)
+  have u2 : divCeil (ox + img.w) ssx * p2 ≤ divCeil W ssx * p2 := Nat.mul_le_mul_right _ hbre
+  have u3 : divCeil W ssx * p2 ≤ W * 16 := Nat.mul_le_mul hdW (by omega)
+  have u4 : divCeil (ox + img.w) ssx * p2 - ox / ssx * p2 = divCeil (ox % ssx + img.w) ssx * p2 := by
+    rw [← Nat.sub_mul, b6']
+  have v1 : (ox + img.w) * p1 ≤ W * p1 := Nat.mul_le_mul_right _ hx
+  rw [Nat.add_mul] at v1
+  have v2 : W * p1 ≤ W * 16 := Nat.mul_le_mul_left _ (by omega)
+  have hml : ox % ssx < ssx := Nat.mod_lt _ hsx
+  have hmle : ox % ssx ≤ ox := Nat.mod_le _ _
+  intro l
+  induction l with
+  | nil => intro y hy; exact ⟨[], by simp [planarRectInnerT]; omega, Quiet.nil _⟩
+  | cons a rest ih =>
+    intro y hy
+    unfold planarRectInnerT
+    by_cases hlt : y < oy
+    · rw [if_pos hlt, ckU_of_lt (by omega), bind_some']
+      obtain ⟨e', he', q'⟩ := ih (y + 1) (by have := ok.h_pos; omega)
+      refine ⟨e', ?_, q'⟩
+      rw [he']; simp only [List.length_cons]; congr 2; omega
+    · rw [if_neg hlt, ck32_of_lt hoy, bind_some']
+      by_cases hge : y ≥ oy + img.h
+      · rw [if_pos hge, pure_some']
+        have : min (oy + img.h) (y + (a :: rest).length) = y := by simp only [List.length_cons]; omega
+        rw [this]; exact ⟨[], rfl, Quiet.nil _⟩
+      · rw [if_neg hge]
+        have hd : y - oy < img.h := by omega
+        have m1 : (y - oy + 1) * (W * p1) ≤ img.h * (W * p1) := Nat.mul_le_mul_right _ (by omega)
+        rw [Nat.succ_mul, Nat.mul_comm img.h] at m1
+        unfold U32B at hW hoy
+        have hlen : (y - oy) * (W * p1) + ox * p1 + img.w * p1 - ((y - oy) * (W * p1) + ox * p1) = img.w * p1 := by omega
+        obtain ⟨e, he, q⟩ := convPlanar_row ok c
+          (line1 := ⟨.plane1, 0 + ((y - oy) * (W * p1) + ox * p1),
+            (y - oy) * (W * p1) + ox * p1 + img.w * p1 - ((y - oy) * (W * p1) + ox * p1)⟩)
+          (uv := ⟨uvLine.buf, uvLine.off + ox / ssx * p2, divCeil (ox + img.w) ssx * p2 - ox / ssx * p2⟩)
+          (offset := ox % ssx) hd hml (by unfold U32B; omega) hlen u4
+        obtain ⟨e', he', q'⟩ := ih (y + 1) (by omega)
+        rw [subU_of_le (by omega), bind_some', ckU_of_lt (by omega), bind_some', ckU_of_lt (by omega), bind_some',
+          ckU_of_lt (by omega), bind_some', ckU_of_lt (by omega), bind_some', ckU_of_lt (by omega), bind_some',
+          Sl.range_of ⟨by omega, by simp only; omega⟩, bind_some', bind_some', ok.getRowT hd, bind_some',
+          div_of_ne (by omega), bind_some', ckU_of_lt (by omega), bind_some', ck32_of_lt (by unfold U32B; omega),
+          bind_some', divCeilT_of_ne (by omega), bind_some', ckU_of_lt (by omega), bind_some',
+          Sl.range_of ⟨u1, by omega⟩, bind_some', modT_of_ne (by omega), bind_some', he, bind_some',
+          ckU_of_lt (by omega), bind_some', he', bind_some']
+        simp only [pure_some']
+        refine ⟨_, ?_, q.append q'⟩
+        simp only [List.length_cons]
+        congr 2; omega
+
+/-- **`for_each_bi_planar_rect`**: surface `W × H` whose encoded length passed `check_likely_overflow`, the image is
+the rect at `(ox, oy)` inside it -/
+theorem planarRectT_spec {img : Img} {native : Color} {p1 p2 ssx ssy : Nat} (ok : img.Ok)
+    (c : PlanarCfg img native p1 p2 ssx ssy) {W H ox oy : Nat} (hx : ox + img.w ≤ W) (hy : oy + img.h ≤ H)
+    (hW : W < U32B) (hH : H < U32B) (hs : PlanarSurf p1 p2 ssx ssy W H) :
+    ∃ evs, planarRectT img W H ox oy native p1 p2 ssx ssy = some evs ∧
+      Stream.biPlanarRect p1 p2 ssx ssy W H oy img.h = .ok (ios evs) ∧
+      Wr (InRows 0 img.pitch img.h (img.w * img.color.bpp)) evs := by
+  have hsx := c.ssx_pos
+  have hsy := c.ssy_pos
+  have hUS : 2 * I64MAX < USIZE := by decide
+  have hhp := ok.h_pos
+  have hhl := ok.h_lt
+  have hmod : ssy % 256 = ssy := Nat.mod_eq_of_lt (by have := c.ssy_lt; omega)
+  -- chroma line accounting
+  have hB : oy / ssy < divCeil (oy + img.h) ssy := Stream.div_lt_divCeil hsy hhp
+  have hB2 : divCeil (oy + img.h) ssy ≤ divCeil H ssy := Stream.divCeil_mono hsy hy
+  have eLines : divCeil H ssy - oy / ssy - (divCeil H ssy - divCeil (oy + img.h) ssy) =
+      divCeil (oy + img.h) ssy - oy / ssy := by omega
+  generalize hL : divCeil (oy + img.h) ssy - oy / ssy = L at eLines
+  have hLp : 0 < L := by omega
+  have hyb : oy / ssy * ssy ≤ oy := Nat.div_mul_le_self _ _
+  have hwb : 0 < divCeil W ssx := Stream.divCeil_pos (by have := ok.w_pos; omega) hsx
+  have hhb : 0 < divCeil H ssy := Stream.divCeil_pos (by omega) hsy
+  have h32 : U32B < USIZE := by decide
+  have hbp : 0 < divCeil W ssx * p2 := Nat.mul_pos hwb c.p2_pos
+  have hs2 := hs.plane2
+  have hs1 := hs.plane1
+  have hbl : divCeil W ssx * p2 < USIZE := by
+    have : divCeil W ssx * p2 * 1 ≤ divCeil W ssx * p2 * divCeil H ssy := Nat.mul_le_mul_left _ hhb
+    omega
+  have huv : ∀ n, n ≤ divCeil H ssy → n * (divCeil W ssx * p2) ≤ I64MAX := by
+    intro n hn
+    have : n * (divCeil W ssx * p2) ≤ divCeil H ssy * (divCeil W ssx * p2) := Nat.mul_le_mul_right _ hn
+    rw [Nat.mul_comm (divCeil H ssy)] at this; omega
+  have hp1 : ∀ n, n ≤ H → W * p1 * n ≤ I64MAX := by
+    intro n hn
+    have : W * p1 * n ≤ W * p1 * H := Nat.mul_le_mul_left _ hn
+    omega
+  have hp1b : W * p1 ≤ W * p1 * H := Nat.le_mul_of_pos_right _ (by omega)
+  obtain ⟨lb, hnew, hbpl, inv⟩ := LB.newT_spec hbp hbl hLp
+  obtain ⟨e1, he1, i1, w1⟩ := whileLines_spec
+    (fun y uvLine => do
+      dbgP (y < oy + img.h)
+      planarRectInnerT img ox oy native ssx p1 p2 (W * p1) ⟨.plane1, 0, W * p1 * img.h⟩ uvLine (List.range (ssy % 256)) y)
+    (Stream.linesInBuffer (divCeil W ssx * p2) L) (divCeil W ssx * p2) L
+    (fun k y => y = min (oy + img.h) ((oy / ssy + k) * ssy)) (InRows 0 img.pitch img.h (img.w * img.color.bpp))
+    (by
+      intro k y line hk hyv _ hl
+      subst y
+      have hkm : (oy / ssy + k) * ssy < oy + img.h := divCeil_lt_mul hsy (by omega)
+      obtain ⟨e, he, q⟩ := planarRectInnerT_spec ok c hx hW (by omega) (hp1 img.h (by omega)) hl (List.range ssy)
+        (min (oy + img.h) ((oy / ssy + k) * ssy)) (Nat.min_le_left _ _)
+      refine ⟨min (oy + img.h) (min (oy + img.h) ((oy / ssy + k) * ssy) + (List.range ssy).length), e, ?_, ?_, q⟩
+      · show (do
+          dbgP (min (oy + img.h) ((oy / ssy + k) * ssy) < oy + img.h)
+          planarRectInnerT img ox oy native ssx p1 p2 (W * p1) ⟨.plane1, 0, W * p1 * img.h⟩ line
+            (List.range (ssy % 256)) (min (oy + img.h) ((oy / ssy + k) * ssy))) = _
+        rw [dbgP_of (by omega), bind_some', hmod, he]
+      · rw [List.length_range, ← Nat.add_assoc, Nat.succ_mul]; omega)
+    (L + 1) lb 0 L (oy / ssy * ssy) 0 inv hbpl (by omega) (by omega) (by simp only [Nat.add_zero]; omega)
+  obtain k1 := hp1 img.h (by omega)
+  obtain k2 := hp1 oy (by omega)
+  obtain k3 := hp1 (H - oy - img.h) (by omega)
+  obtain k4 := huv (oy / ssy) (by omega)
+  obtain k5 := huv (divCeil H ssy - divCeil (oy + img.h) ssy) (by omega)
+  unfold planarRectT
+  rw [dbgP_of c.prec, bind_some', div_of_ne (by omega), bind_some', divCeilT_of_ne (by omega), ck32_of_lt (by omega)]
+  simp only [bind_some']
+  rw [divCeilT_of_ne (by omega), bind_some', subU_of_le hB2, bind_some', divCeilT_of_ne (by omega), bind_some',
+    subU_of_le (by omega), bind_some', subU_of_le (by omega), bind_some', ckU_of_lt hbl, bind_some',
+    ckU_of_lt (by omega), bind_some', if_pos (by omega)]
+  simp only [eLines]
+  rw [hnew, bind_some']
+  simp only []
+  rw [ckU_of_lt (by omega), bind_some', subU_of_le (by omega), bind_some', subU_of_le (by omega), bind_some',
+    ckU_of_lt (by omega), bind_some', ckU_of_lt (by omega), bind_some', ckU_of_lt (by omega), bind_some', he1, bind_some',
+    ckU_of_lt (by omega), bind_some', pure_some']
+  refine ⟨_, rfl, ?_, ?_⟩
+  · unfold Stream.biPlanarRect
+    simp only []
+    rw [if_pos (by unfold U64; unfold USIZE at hUS; omega), eLines]
+    simp only [ios_append, i1, ios, refillsFrom_stream hbp, Stream.lineBufNew_eq hbp hLp, List.cons_append,
+      List.nil_append]
+  · exact (((Wr.io _ _).append (Wr.io _ _)).append
+      ((Wr.io _ _).append ((Wr.io _ _).append ((Wr.io _ _).append (Wr.io _ _)))) |>.append w1).append (Wr.io _ _)
+
 end Dds.TrapLoops
